@@ -45,6 +45,7 @@ func c19Gen(g *Gen) []Case {
 		cs = append(cs, batchCases("rsecs", 20, 20000)...)
 		cs = append(cs, yearCases("lunar", sampleYears(g.Rng, 60, true))...)
 		cs = append(cs, Case{K: "lunar-one-per-year"})
+		cs = append(cs, yearCases("lunar-turn", allYears())...)
 	} else {
 		cs = append(cs, batchCases("rsecs", 100, 100000)...)
 		cs = append(cs, yearCases("lunar", allYears())...)
@@ -279,6 +280,17 @@ func c19Run(w *W, c Case) {
 		if y == 2033 {
 			w.Sample("lunar", calendar.NewSolarFromYmd(2033, 12, 25).GetLunar().String())
 		}
+	case "lunar-turn":
+		// every year's turn (25 November to 25 February): the winter months are described by two year tables, and two
+		// days that the tables label alike print alike
+		y := c.A[0]
+		w.Class("lunar/year-turns")
+		c19Printed = map[string]string{}
+		for j := ref.JDN(y, 11, 25); j <= ref.JDN(y, 11, 25)+92 && j <= ref.MaxJDN; j++ {
+			cy, cm, cd := ref.FromJDN(j)
+			c19LunarDay(w, cy, cm, cd)
+		}
+		c19Printed = nil
 	case "lunar-one-per-year":
 		for y := 1; y <= maxYear; y++ {
 			cy, cm, cd := ref.FromJDN(ref.JDN(y, 1, 1) + (y*37)%ref.DaysInYear(y))
